@@ -255,7 +255,9 @@ func (s *ForStmt) String() string {
 		post = s.Post.String()
 	}
 
-	if init != "" || post != "" {
+	if init != "" || post != "" || strings.HasPrefix(cond, "{") {
+		// (a condition starting with "{" directly after "for" would be
+		// read as the loop body)
 		return "for " + init + " ; " + cond + " ; " + post + s.Body.String()
 	}
 	return "for " + cond + s.Body.String()
